@@ -25,7 +25,7 @@ ASSUMPTIONS = [
     'for every probed path except the ancestors of the cart directory '
     '(necessarily directories); open() records the path',
     'path strings are drawn from the alphabet { . / r x a } (include) and '
-    '{ . / x a ? } (require) up to the stated length',
+    '{ . / x a ? ; } (require) up to the stated length',
 ]
 OUTSIDE = ['Windows path semantics', 'path strings longer than the bound or '
            'over other alphabets', 'symbolic links']
@@ -88,9 +88,11 @@ def include(x, p):
     line = b'#include ' + body + ext + tab + b'\n'
     rec = []
     install_fs(x, rec)
+    cart, cwd = p.get('cart', '/w/r/c.p8'), p.get('cwd', '/w/r')
+    hx.patch(x, os, 'getcwd', lambda: cwd)
     err = None
     try:
-        out = list(p8.process_includes([line], filename='/w/r/c.p8'))
+        out = list(p8.process_includes([line], filename=cart))
     except Opened:
         err = 'opened'
     except (p8.P8IncludeOutsideOfAllowedDirectory, p8.P8IncludeNotFound) \
@@ -103,13 +105,16 @@ def include(x, p):
     x.out('err', err)
     x.out('nprobed', len(rec))
     x.tag(str(err))
+    # a relative path handed to the OS is resolved against the working
+    # directory
+    rec = [r if r[:1] == '/' else cwd + '/' + r for r in rec]
     check_paths(x, rec, [ROOT], 'every path probed or opened for #include '
                 'lies under the include root')
 
 
 def require(x, p):
     n = p['n']
-    s = sym_path(x, 'req', n, './xa?')
+    s = sym_path(x, 'req', n, './xa?;')
     lua_path = p['lua_path']
     rec = []
     src = b'require("' + s + b'")\n'
@@ -141,7 +146,10 @@ def require(x, p):
 
 Q = {'_budget': 900}
 HARNESSES = [
-    Harness('include', include, quick=[dict(Q, n=n) for n in (1, 2, 3, 4)],
+    Harness('include', include, quick=[dict(Q, n=n) for n in (1, 2, 3, 4)] +
+            [dict(Q, n=3, cart=c, cwd=d) for c, d in (
+                ('c.p8', '/w/r'), ('./c.p8', '/w/r'), ('r/c.p8', '/w'),
+                ('../r/c.p8', '/w/q'))],
             thorough=[dict(Q, n=n, _budget=3000) for n in (1, 2, 3, 4, 5, 6,
                                                           7)]),
     Harness('require', require,
